@@ -481,12 +481,21 @@ def main(rep: Report, replay: dict | None) -> None:
         args = replay["scenario"]["args"]
         got = UrwidImageCanvas._ti_calc_trim(*args)
         print(f"_ti_calc_trim{tuple(args)} -> {got}")
-    pool = ThreadPoolExecutor(max_workers=1)
-    mc_future = pool.submit(run_model, rep.tier)  # overlaps with rendering/recording
     if replay and replay["scenario"].get("kind") in ("calc_trim", "design"):
-        model_and_replay(rep, mc_future.result())
-        pool.shutdown()
+        model_and_replay(rep, run_model(rep.tier))
         return
+    pool = ThreadPoolExecutor(max_workers=1)
+    # the model run overlaps with rendering/recording; a content replay does not need it
+    mc_future = None if replay else pool.submit(run_model, rep.tier)
+    try:
+        traces_part(rep, replay, t_start)
+        if mc_future is not None:
+            model_and_replay(rep, mc_future.result())
+    finally:
+        pool.shutdown()
+
+
+def traces_part(rep: Report, replay: dict | None, t_start: float) -> None:
 
     rng = random.Random(rep.seed * 104729 + 17)
     budget = 21000 if rep.tier == "quick" else 10**9
@@ -599,8 +608,9 @@ def main(rep: Report, replay: dict | None) -> None:
             if v["verdict"].startswith(("unsupported", "bad-trace")):
                 raise tlc.MachineryError(f"Trace_Canvas: {v['verdict']} for {case} rect {(tl, tt, cols, rows)}")
             clause = v["verdict"].split(":")[0]
+            trim = ("h" if tl or cols != W else "") + ("v" if tt or rows != H else "") or "untrimmed"
             rep.violation(
-                f"content:{case['style']}:{clause}",
+                f"UrwidImageCanvas.content:{case['style']}:{clause}:{trim}",
                 f"clause {v['verdict']!r} failed at row {v['at']} of content(trim_left={tl}, "
                 f"trim_top={tt}, cols={cols}, rows={rows}) on a {W}x{H} canvas (image {iw}x{ih}, "
                 f"{case['sizing']}, h_align {case['ha']!r}, v_align {case['va']!r}); "
@@ -619,8 +629,3 @@ def main(rep: Report, replay: dict | None) -> None:
     rep.extra["distinct_rows_lexed"] = sum(len(b["_table"].rows) for b in batches)
     rep.extra["render_record_s"] = round(t_render, 1)
     rep.exhaustive = False
-
-    try:
-        model_and_replay(rep, mc_future.result())
-    finally:
-        pool.shutdown()
